@@ -534,6 +534,8 @@ def run(ctx):
             res = o["head"][2:] if o["head"].startswith("r=") else o["head"]
             stats["add:" + res] += 1
             notes["add/" + (c.get("note") or "").split(":")[0]] += 1
+            for mk in re.findall(r"kid-alg-curve-mismatch:[^:]+|\(valid\)kid:[^:]+|alg-curve-mismatch:[^:]+", c.get("note") or ""):
+                notes["add/" + mk] += 1
             ref8 = c["jws"]["ref"][:8]
             was = prev is not None and ref8 in [r for _, r in lcs_prev]
             same = prev is not None and all(o.get(k) == prev.get(k) for k in ("LC", "J", "m_n", "m_lch", "m_lca", "m_head", "m_xor")) \
@@ -846,7 +848,7 @@ def run(ctx):
                        "documents / metadata shelves + real getRoots + real findBetweenLC ranges every 5th history step vs the byte-level store model; random hash-list bytes -> "
                        "real parseHashList/appendHashList/bytesToClock; (6) real NewTransaction + real Sign (in-memory JWS signer) on hostile arguments vs model. "
                        "distinct_nontrivial = distinct input byte strings offered")
-    ctx.cov["input_distribution"] = {"ops": {k: v for k, v in sorted(stats.items())}, "mutation_classes": dict(notes.most_common(40)),
+    ctx.cov["input_distribution"] = {"ops": {k: v for k, v in sorted(stats.items())}, "mutation_classes": dict(notes.most_common(40)), "alg_curve_shapes": {k: v for k, v in sorted(notes.items()) if "curve" in k or "(valid)kid" in k},
                                      "parse_unmodelled_framing": n_unmodelled, "framing_inputs": n_framing, "new_transaction_sign_calls": n_newtx, "new_transaction_outcomes": dict(newtx_classes), "raw_store_dumps": n_shelf, "range_scans": n_ranges, "hash_list_inputs": n_hashlist, "algorithm_fits_key_calls": n_algfit, "framing_classes": dict(fr_notes.most_common(40)), "schedules": n_sched, "schedule_scenarios": n_groups,
                                      "legs": dict(Counter(leg_of)), "transaction_lists(v2 handler)": n_list, "late_payloads(v2 handler)": n_late,
                                      "CreateTransaction calls (wired Network)": n_create,
